@@ -260,6 +260,14 @@ def run_impl(case, mode):
             res['iht'] = 'unknown:' + type(iht).__name__
     except Exception as e:  # noqa
         res['iht'] = 'exc:%s:%s' % (type(e).__name__, str(e)[:120])
+    # ... and the propagation data must ACT as -i t (H - e0), also on an object that has been used before
+    # (the compiled object was applied above): this is how the polynomial propagators consume it
+    try:
+        iht2 = ham.iht(t)
+        if not type(ham).__name__ == 'DiagonalCoulomb':
+            res['iht_out'] = fqeio.read_state(wfn.apply(iht2))
+    except Exception as e:  # noqa
+        res['iht_apply_exc'] = [type(e).__name__, str(e)[:200]]
     return res
 
 
@@ -323,6 +331,20 @@ def compare(case, got, exp, mode):
         bad.append('dim() = %s for norb = %d' % (d['dim'], case['norb']))
     if got['iht'] not in ('tensors_ok', 'diag_ok', 'sparse_ok'):
         bad.append('iht(%d): %s' % (case['t'], got['iht']))
+    # --- the propagation data acts as -i t (H - e0)
+    if 'iht_apply_exc' in got:
+        bad.append('apply(iht(%d)) raised %s' % (case['t'], got['iht_apply_exc']))
+    elif 'iht_out' in got:
+        t = case['t']
+        e0 = complex(*exp['const'])
+        src = {'%d,%d' % (a, b): complex(re, im) for a, b, re, im in case['vec']}
+        g = {'%d,%d' % (a, b): complex(re, im) for a, b, re, im in got['iht_out']}
+        scale = 1.0 + max([abs(x) for v in exp['out'].values() for x in v] + [0])
+        for k in sorted(set(g) | set(exp['out']) | set(src)):
+            want = -1j * t * (complex(*exp['out'].get(k, (0, 0))) - e0 * src.get(k, 0))
+            if abs(g.get(k, 0) - want) > 1e-9 * scale * (1 + abs(t)):
+                bad.append('apply(iht(%d)) [%s]: coefficient of %s is %r, -i t (H - e0) psi has %r' % (t, d['cls'], k, g.get(k, 0), want))
+                break
     # --- action
     for key, label in (('out', 'apply(build_hamiltonian(op))'), ('out_direct', 'apply(op)')):
         if key not in got:
